@@ -4,7 +4,6 @@ import (
 	"encoding/json"
 	"errors"
 	"fmt"
-	"math/rand"
 	"os"
 	"time"
 
@@ -23,16 +22,34 @@ import (
 var schedKeys = [][]byte{[]byte("a"), []byte("b")}
 
 type schedProg struct {
-	Reads []int  `json:"reads"`         // key indices, in order
-	Tag   string `json:"tag,omitempty"` // "" = no writes; else writes tag to both keys
+	Reads []int  `json:"reads"`          // key indices, in order
+	Tag   string `json:"tag,omitempty"`  // "" = no writes (read-only transaction); else the value written
+	Keys  []int  `json:"keys,omitempty"` // keys written (default: both)
 }
 
+func (p schedProg) writeKeys() []int {
+	if p.Tag == "" {
+		return nil
+	}
+	if len(p.Keys) == 0 {
+		return []int{0, 1}
+	}
+	return p.Keys
+}
+
+// schedDesc. Words: thread id = grant; id+100 = grant even if the thread is parked at
+// oracle.readTs.wait with the mark not done (the real WaitForMark then blocks; the model keeps the
+// thread disabled); 50 = let the paused commit worker apply the request it holds (Pause mode).
 type schedDesc struct {
 	Detect bool        `json:"detect"`
+	Pause  bool        `json:"pause,omitempty"` // the commit worker stops before applying each request (Crash point commit.head)
 	Progs  []schedProg `json:"progs"`
-	Words  []int       `json:"words"` // the grants asked for (a drain follows)
+	Words  []int       `json:"words"`
 	Picks  []int       `json:"picks,omitempty"`
+	Asked  []int       `json:"asked,omitempty"`
 }
+
+const releasePick = 50
 
 var schedPoints = map[string]bool{
 	"oracle.readTs.lock": true, "oracle.readTs.wait": true, "h.get": true,
@@ -43,7 +60,6 @@ type schedRes struct {
 	rts    uint64
 	reads  []string
 	commit string
-	done   bool
 }
 
 func execSched(c *corr.Ctx, d schedDesc) (corr.Case, error) {
@@ -51,12 +67,46 @@ func execSched(c *corr.Ctx, d schedDesc) (corr.Case, error) {
 	defer os.RemoveAll(dir)
 	db := openTxnDB(dir, txnCfg{Detect: d.Detect, MaxCount: 64, MaxSize: 1 << 20, VThr: 1024})
 	defer db.Close()
-	s := sched.New()
 	n := len(d.Progs)
 	res := make([]schedRes, n)
 	waitR := make([]uint64, n)
+	var herr error
+
+	// the commit worker, paused before it applies a request
+	events := make(chan string, 64)
+	release := make(chan struct{})
+	if d.Pause {
+		verifhook.SetCrash(func(name string) {
+			switch name {
+			case "commit.head":
+				events <- "head"
+				<-release
+			case "commit.ack":
+				events <- "ack"
+			}
+		})
+		defer verifhook.SetCrash(nil)
+	}
+	holding := -1     // committer whose request the worker holds
+	var queue []int   // enqueued, not yet reached by the worker
+	var inBatch []int // applied, batch not acknowledged yet
+	nextEvent := func() string {
+		select {
+		case e := <-events:
+			return e
+		case <-time.After(10 * time.Second):
+			herr = fmt.Errorf("commit worker: no event")
+			return ""
+		}
+	}
+
+	s := sched.New()
+	forced := -1
 	s.SetEnabled(func(id int, point string) bool {
 		if point == "oracle.readTs.wait" {
+			if id == forced {
+				return true
+			}
 			_, done, _, _ := db.VerifOracleState()
 			return done >= waitR[id]
 		}
@@ -66,7 +116,7 @@ func execSched(c *corr.Ctx, d schedDesc) (corr.Case, error) {
 		id := id
 		p := d.Progs[id]
 		s.Spawn(id, func() {
-			txn := db.NewTransaction(true)
+			txn := db.NewTransaction(p.Tag != "")
 			res[id].rts = txn.ReadTs()
 			for _, ki := range p.Reads {
 				verifhook.Yield("h.get")
@@ -80,11 +130,9 @@ func execSched(c *corr.Ctx, d schedDesc) (corr.Case, error) {
 					res[id].reads = append(res[id].reads, fmt.Sprintf("KV %s (V \"ee\")", hexs(schedKeys[ki])))
 				}
 			}
-			if p.Tag != "" {
-				for _, k := range schedKeys {
-					if err := txn.Set(k, []byte(p.Tag)); err != nil {
-						res[id].commit = "OOther"
-					}
+			for _, ki := range p.writeKeys() {
+				if err := txn.Set(schedKeys[ki], []byte(p.Tag)); err != nil {
+					res[id].commit = "OOther"
 				}
 			}
 			err := txn.Commit()
@@ -99,12 +147,23 @@ func execSched(c *corr.Ctx, d schedDesc) (corr.Case, error) {
 			default:
 				res[id].commit = "OOther"
 			}
-			res[id].done = true
 		})
 	}
 	var picks []int
-	var herr error
-	// settle waits for a granted thread that blocked (req.Wait: the commit worker is free-running)
+	waiting := make([]bool, n) // blocked for real inside WaitForMark after a forced grant
+	inWait := make([]bool, n)  // inside req.Wait: its request is queued, held or applied but not acknowledged
+	forcedBlocked := 0
+	waitParked := func(id int, point string) {
+		deadline := time.Now().Add(10 * time.Second)
+		for s.Point(id) != point && !s.Finished(id) {
+			if time.Now().After(deadline) {
+				herr = fmt.Errorf("thread %d does not reach %s", id, point)
+				return
+			}
+			time.Sleep(20 * time.Microsecond)
+		}
+	}
+	// settle: a granted thread that blocked while the worker is free-running will move on by itself
 	settle := func(id int, st sched.Step) sched.Step {
 		deadline := time.Now().Add(10 * time.Second)
 		for st.Status == sched.Blocked {
@@ -114,27 +173,93 @@ func execSched(c *corr.Ctx, d schedDesc) (corr.Case, error) {
 			}
 			time.Sleep(50 * time.Microsecond)
 			if s.Finished(id) {
-				st.Status = sched.Finished
-				st.Point = ""
+				st.Status, st.Point = sched.Finished, ""
 			} else if p := s.Point(id); p != "" {
-				st.Status = sched.Parked
-				st.Point = p
+				st.Status, st.Point = sched.Parked, p
 			}
 		}
 		return st
 	}
-	grant := func(id int) {
-		if herr != nil || id >= n {
+	doRelease := func() {
+		if holding < 0 || herr != nil {
+			return
+		}
+		t := holding
+		holding = -1
+		inBatch = append(inBatch, t)
+		for range d.Progs[t].writeKeys() { // the model applies one entry per step
+			picks = append(picks, t)
+		}
+		release <- struct{}{}
+		for herr == nil {
+			if len(queue) == 0 && len(inBatch) == 0 {
+				return
+			}
+			switch nextEvent() {
+			case "head":
+				holding, queue = queue[0], queue[1:]
+				return
+			case "ack":
+				for _, u := range inBatch {
+					waitParked(u, "oracle.doneCommit")
+					inWait[u] = false
+				}
+				inBatch = nil
+			}
+		}
+	}
+	grant := func(pick int) {
+		if herr != nil {
+			return
+		}
+		if pick%100 == releasePick {
+			doRelease()
+			return
+		}
+		id := pick % 100
+		if id >= n {
 			return
 		}
 		from := s.Point(id)
-		st := settle(id, s.Grant(id))
-		// pass through yield points that are not steps of the model
-		for herr == nil && st.Ran && st.Status == sched.Parked && !schedPoints[st.Point] {
-			st = settle(id, s.Grant(id))
+		forced = -1
+		if pick >= 100 && from == "oracle.readTs.wait" {
+			forced = id
+		}
+		var woken []int
+		st := s.Grant(id)
+		forced = -1
+		woken = append(woken, st.Woken...)
+		if !st.Ran {
+			if !inWait[id] { // a pick of a committer inside req.Wait is no step; in the model it would apply an entry
+				picks = append(picks, id)
+			}
+			return
+		}
+		enqueued := false
+		for herr == nil {
+			if st.Status == sched.Blocked {
+				if from == "oracle.readTs.wait" {
+					// only a forced grant blocks here: inside WaitForMark for real; a later doneCommit wakes it
+					waiting[id] = true
+					forcedBlocked++
+					break
+				}
+				if d.Pause {
+					enqueued = true // inside req.Wait: the worker holds or will hold the request
+					break
+				}
+				st = settle(id, st)
+				continue
+			}
+			if st.Status == sched.Parked && !schedPoints[st.Point] {
+				st = s.Grant(id) // a yield point that is not a step of the model
+				woken = append(woken, st.Woken...)
+				continue
+			}
+			break
 		}
 		picks = append(picks, id)
-		if !st.Ran {
+		if waiting[id] {
 			return
 		}
 		if st.Status == sched.Parked && st.Point == "oracle.readTs.wait" {
@@ -145,23 +270,49 @@ func execSched(c *corr.Ctx, d schedDesc) (corr.Case, error) {
 			}
 			waitR[id] = r
 		}
-		if from == "oracle.newCommitTs.lock" && st.Status == sched.Parked && st.Point == "oracle.doneCommit" {
-			// conflict check + timestamp, then the worker applied every entry: 1 + #entries model steps
-			for range schedKeys {
+		if enqueued {
+			queue = append(queue, id)
+			inWait[id] = true
+			if holding < 0 && len(inBatch) == 0 {
+				if nextEvent() == "head" {
+					holding, queue = queue[0], queue[1:]
+				} else if herr == nil {
+					herr = fmt.Errorf("commit worker: unexpected event")
+				}
+			}
+		} else if from == "oracle.newCommitTs.lock" && st.Status == sched.Parked && st.Point == "oracle.doneCommit" {
+			// conflict check + timestamp, then the free-running worker applied every entry
+			for range d.Progs[id].writeKeys() {
 				picks = append(picks, id)
 			}
 		}
+		for _, w := range woken {
+			if w < n && waiting[w] {
+				waiting[w] = false
+				picks = append(picks, w) // it passed the wait inside this grant
+			}
+		}
 	}
-	for _, id := range d.Words {
-		grant(id)
+	d.Asked = append([]int(nil), d.Words...)
+	for _, p := range d.Words {
+		grant(p)
 	}
 	for round := 0; round < 64 && !s.AllFinished() && herr == nil; round++ {
 		for _, id := range s.Live() {
 			grant(id)
 		}
+		grant(releasePick)
 	}
 	if !s.AllFinished() && herr == nil {
 		herr = fmt.Errorf("threads did not finish: live=%v", s.Live())
+	}
+	if herr != nil {
+		// let everything run freely before giving up
+		verifhook.SetCrash(nil)
+		select {
+		case release <- struct{}{}:
+		default:
+		}
 	}
 	s.Close(5 * time.Second)
 	if herr != nil {
@@ -170,19 +321,14 @@ func execSched(c *corr.Ctx, d schedDesc) (corr.Case, error) {
 	var progs, obs, fps, dumps []string
 	conflicts, oks := 0, 0
 	for id, p := range d.Progs {
-		var rs []string
+		var rs, w []string
 		for _, ki := range p.Reads {
 			rs = append(rs, "K "+hexs(schedKeys[ki]))
 		}
-		ws := "[]"
-		if p.Tag != "" {
-			var w []string
-			for _, k := range schedKeys {
-				w = append(w, fmt.Sprintf("KV %s (V %s)", hexs(k), hexs([]byte(p.Tag))))
-			}
-			ws = corr.List(w)
+		for _, ki := range p.writeKeys() {
+			w = append(w, fmt.Sprintf("KV %s (V %s)", hexs(schedKeys[ki]), hexs([]byte(p.Tag))))
 		}
-		progs = append(progs, fmt.Sprintf("Pg %s %s", corr.List(rs), ws))
+		progs = append(progs, fmt.Sprintf("Pg %s %s", corr.List(rs), corr.List(w)))
 		obs = append(obs, fmt.Sprintf("Ob %d %s %s", res[id].rts, corr.List(res[id].reads), res[id].commit))
 		if res[id].commit == "OConflict" {
 			conflicts++
@@ -203,9 +349,33 @@ func execSched(c *corr.Ctx, d schedDesc) (corr.Case, error) {
 	c.CountN("grants", len(picks))
 	c.CountN("commit_ok", oks)
 	c.CountN("commit_conflict", conflicts)
+	c.CountN("forced_wait_blocked", forcedBlocked)
 	coq := fmt.Sprintf("Cs %s %s %s %s %s %s", corr.Bool(d.Detect), corr.List(fps), corr.List(progs), corr.ListN(pk),
 		corr.List(obs), corr.List(dumps))
 	return corr.Case{Coq: coq, Nontrivial: oks > 0, Desc: d}, nil
+}
+
+// interleave2 enumerates all interleavings of the two words a and b.
+func interleave2(a, b []int, f func([]int)) {
+	w := make([]int, 0, len(a)+len(b))
+	var rec func(i, j int)
+	rec = func(i, j int) {
+		if i == len(a) && j == len(b) {
+			f(append([]int(nil), w...))
+			return
+		}
+		if i < len(a) {
+			w = append(w, a[i])
+			rec(i+1, j)
+			w = w[:len(w)-1]
+		}
+		if j < len(b) {
+			w = append(w, b[j])
+			rec(i, j+1)
+			w = w[:len(w)-1]
+		}
+	}
+	rec(0, 0)
 }
 
 // interleavings enumerates all words with counts[i] occurrences of i.
@@ -236,10 +406,14 @@ func interleavings(counts []int, f func([]int)) {
 
 func runTxnSched(c *corr.Ctx) error {
 	c.Meta("run_module", "RunTxnSched")
-	c.Meta("rule", "exhaustive: every interleaving of one committer (get a; set a,b; commit = 5 grants) with one reader (get a; get b "+
-		"= 4 grants) on a fresh DB, DetectConflicts on (126 schedules; thorough adds committer x committer, 252); random: 2 committers "+
-		"+ 1-2 readers with random block schedules followed by a round-robin drain. Compared: read timestamps, every value read, "+
-		"commit results, final version lists of both keys. non-trivial = at least one commit succeeded; distinct by Gallina term")
+	c.Meta("rule", "exhaustive A: every interleaving of one committer (get a; set a,b; commit = 5 grants) with one reader (get a; get b = 4 "+
+		"grants), worker free-running (126). exhaustive B: commit worker paused before it applies the request (Crash point commit.head): "+
+		"committer [lock, wait, commit, RELEASE, done] x read-only reader [lock, FORCED wait, get a, get b] (126): the forced grant makes the real "+
+		"WaitForMark block while the model keeps the reader disabled. targeted C: read-modify-write transaction beginning (forced wait) while a "+
+		"commit is in flight, a second committer overwriting its key and a third one pruning the conflict history, in several orders. random: "+
+		"3-5 threads (committers of a, b or both, RMW transactions, read-only readers), random block schedules with forced grants and, in half "+
+		"of them, the paused worker; round-robin drain. Compared: read timestamps, every value read, commit results, final version lists. "+
+		"non-trivial = at least one commit succeeded; distinct by Gallina term")
 	emit := func(d schedDesc) error {
 		cs, err := execSched(c, d)
 		if err != nil {
@@ -259,7 +433,7 @@ func runTxnSched(c *corr.Ctx) error {
 			if err := json.Unmarshal(b, &d); err != nil {
 				return err
 			}
-			d.Words = d.Picks
+			d.Words = d.Asked
 			if err := emit(d); err != nil {
 				return err
 			}
@@ -268,42 +442,103 @@ func runTxnSched(c *corr.Ctx) error {
 	}
 	committer := func(tag string, reads ...int) schedProg { return schedProg{Reads: reads, Tag: tag} }
 	var ferr error
-	exhaust := func(progs []schedProg, counts []int) {
-		interleavings(counts, func(w []int) {
+	// A: free-running worker
+	interleavings([]int{5, 4}, func(w []int) {
+		if ferr == nil {
+			ferr = emit(schedDesc{Detect: true, Progs: []schedProg{committer("c0", 0), {Reads: []int{0, 1}}}, Words: w})
+		}
+	})
+	// B: paused worker, forced grant of the reader at the wait
+	interleave2([]int{0, 0, 0, releasePick, 0}, []int{1, 101, 1, 1}, func(w []int) {
+		if ferr == nil {
+			c.Count("paused_worker_schedules")
+			ferr = emit(schedDesc{Detect: true, Pause: true, Progs: []schedProg{committer("c0"), {Reads: []int{0, 1}}}, Words: w})
+		}
+	})
+	c.Meta("exhaustive", true)
+	c.Meta("exhaustive_scope", "A: all 126 interleavings committer x reader at the 5 oracle yield points; B: all 126 interleavings of "+
+		"committer [lock, wait, commit, release, done] x read-only reader [lock, forced wait, get a, get b] with the worker paused before the apply")
+	if c.Tier == "thorough" {
+		interleavings([]int{5, 5}, func(w []int) {
 			if ferr == nil {
-				ferr = emit(schedDesc{Detect: true, Progs: progs, Words: w})
+				ferr = emit(schedDesc{Detect: true, Progs: []schedProg{committer("c0", 0), committer("c1", 1)}, Words: w})
 			}
 		})
 	}
-	exhaust([]schedProg{committer("c0", 0), {Reads: []int{0, 1}}}, []int{5, 4})
-	c.Meta("exhaustive", true)
-	c.Meta("exhaustive_scope", "all 126 interleavings of committer(get a; set a,b; commit) x reader(get a; get b) at the 5 oracle yield points")
-	if c.Tier == "thorough" {
-		exhaust([]schedProg{committer("c0", 0), committer("c1", 1)}, []int{5, 5})
+	// C: begin during an in-flight commit, overwrite, prune, then read-modify-write
+	rmw := []schedProg{
+		{Tag: "c0", Keys: []int{1}},                  // 0: C1 writes b (in flight)
+		{Reads: []int{0}, Tag: "r1", Keys: []int{0}}, // 1: R reads a, writes a
+		{Tag: "c2", Keys: []int{0}},                  // 2: C2 writes a
+		{Tag: "c3", Keys: []int{1}},                  // 3: C3 writes b (its cleanup prunes)
+	}
+	targeted := [][]int{
+		{2, 2, 3, 3, 0, 0, 0, 1, 101, 2, 2, 3, 3, 0, 1, 1, 1},
+		{3, 3, 2, 2, 0, 0, 0, 1, 101, 2, 2, 3, 3, 0, 1, 1, 1},
+		{2, 2, 3, 3, 0, 0, 0, 1, 1, 2, 2, 3, 3, 0, 1, 1, 1, 1},
+		{2, 2, 3, 3, 0, 0, 0, 1, 101, 2, 3, 2, 3, 0, 1, 1, 1},
+		{2, 2, 3, 3, 0, 0, 0, 1, 101, 2, 2, 0, 3, 3, 1, 1, 1},
+	}
+	for _, w := range targeted {
+		for _, pause := range []bool{false, true} {
+			if ferr != nil {
+				break
+			}
+			words := w
+			if pause { // the worker holds every request until released: release right after each commit grant
+				words = nil
+				for _, x := range w {
+					words = append(words, x)
+				}
+				words = append(words, releasePick, releasePick, releasePick, releasePick)
+			}
+			c.Count("targeted_rmw_schedules")
+			ferr = emit(schedDesc{Detect: true, Pause: pause, Progs: rmw, Words: words})
+		}
 	}
 	if ferr != nil {
 		return ferr
 	}
-	n := c.Scale(120, 3000)
+	n := c.Scale(60, 3000)
 	for i := 0; i < n; i++ {
 		r := c.Rng
-		d := schedDesc{Detect: r.Intn(4) != 0}
-		randReads := func(r *rand.Rand) []int {
+		d := schedDesc{Detect: r.Intn(5) != 0, Pause: r.Intn(2) == 0}
+		randReads := func(max int) []int {
 			var out []int
-			for j, m := 0, r.Intn(4); j < m; j++ {
+			for j, m := 0, r.Intn(max+1); j < m; j++ {
 				out = append(out, r.Intn(2))
 			}
 			return out
 		}
-		d.Progs = append(d.Progs, committer("c0", randReads(r)...), committer("c1", randReads(r)...))
-		for j, m := 0, 1+r.Intn(2); j < m; j++ {
-			rd := randReads(r)
-			if len(rd) == 0 {
-				rd = []int{0, 1}
+		nthreads := 3 + r.Intn(3)
+		for t := 0; t < nthreads; t++ {
+			switch x := r.Intn(6); {
+			case x == 0: // read-only
+				rd := randReads(3)
+				if len(rd) == 0 {
+					rd = []int{0, 1}
+				}
+				d.Progs = append(d.Progs, schedProg{Reads: rd})
+			case x == 1: // read-modify-write of one key
+				k := r.Intn(2)
+				d.Progs = append(d.Progs, schedProg{Reads: []int{k}, Tag: fmt.Sprintf("t%d", t), Keys: []int{k}})
+			case x < 4: // blind write of one key
+				d.Progs = append(d.Progs, schedProg{Tag: fmt.Sprintf("t%d", t), Keys: []int{r.Intn(2)}})
+			default:
+				d.Progs = append(d.Progs, schedProg{Reads: randReads(2), Tag: fmt.Sprintf("t%d", t)})
 			}
-			d.Progs = append(d.Progs, schedProg{Reads: rd})
 		}
-		d.Words = sched.RandomBlocks(r, len(d.Progs), 8+r.Intn(16), 3)
+		for _, x := range sched.RandomBlocks(r, nthreads, 10+r.Intn(20), 3) {
+			switch {
+			case r.Intn(4) == 0:
+				d.Words = append(d.Words, x+100)
+			default:
+				d.Words = append(d.Words, x)
+			}
+			if d.Pause && r.Intn(4) == 0 {
+				d.Words = append(d.Words, releasePick)
+			}
+		}
 		if err := emit(d); err != nil {
 			return err
 		}
